@@ -53,7 +53,7 @@ macro_rules! zigzag_laws {
         #[kani::unwind($unwind)]
         fn $name() {
             let c: $ity = kani::any();
-            let spec: $uty = if c >= 0 { (c as $uty) * 2 } else { ((-(c + 1)) as $uty) * 2 + 1 };
+            let spec: $uty = if c >= 0 { (c as $uty) << 1 } else { (((-(c + 1)) as $uty) << 1) | 1 };
             let mut o1: Vec<u8> = Vec::with_capacity(16);
             let mut o2: Vec<u8> = Vec::with_capacity(16);
             o1.$puti(c);
@@ -70,7 +70,7 @@ macro_rules! zigzag_laws {
             o3.$putu(u);
             let mut rd: &[u8] = &o3[..];
             let x = ValueBufExt::$geti(&mut rd).unwrap();
-            let back: $uty = if x >= 0 { (x as $uty) * 2 } else { ((-(x + 1)) as $uty) * 2 + 1 };
+            let back: $uty = if x >= 0 { (x as $uty) << 1 } else { (((-(x + 1)) as $uty) << 1) | 1 };
             assert!(back == u);
         }
     };
@@ -116,3 +116,6 @@ macro_rules! varint_total {
 varint_total!(q_c07_varint_total_u16, 6, 2, try_get_varint_u16_le, [0, 1, 2, 3, 4]);
 varint_total!(q_c07_varint_total_u32, 8, 4, try_get_varint_u32_le, [0, 1, 2, 3, 4, 5, 6]);
 varint_total!(q_c07_varint_total_u64, 12, 8, try_get_varint_u64_le, [0, 1, 2, 5, 8, 9, 10]);
+
+#[cfg(verif_replay)]
+include!("/verif/.cache/replay/verif__buf_ext.rs");
